@@ -101,7 +101,7 @@ func (m *Mutex) TryLock() bool {
 // (two concurrent readers) but adds none, so it cannot cause a false alarm.
 type RWMutex struct{ Mutex }
 
-func (m *RWMutex) RLock()         { m.Lock() }
-func (m *RWMutex) RUnlock()       { m.Unlock() }
-func (m *RWMutex) TryRLock() bool { return m.TryLock() }
+func (m *RWMutex) RLock()               { m.Lock() }
+func (m *RWMutex) RUnlock()             { m.Unlock() }
+func (m *RWMutex) TryRLock() bool       { return m.TryLock() }
 func (m *RWMutex) RLocker() sync.Locker { return &m.Mutex }
